@@ -205,7 +205,59 @@ func (p *Prog) PkgFuncs(rel string) []*ssa.Function {
 			out = append(out, f)
 		}
 	}
+	// A hidden method whose body the variant inlined into its bound-method wrapper (x.m used as a
+	// value) lives on in that wrapper, a synthetic function without package: list it, with the
+	// literals it now carries, wherever a listed function creates it — otherwise a rule that
+	// enumerates the package would look past that code and hold vacuously on the variant.
+	seen := map[*ssa.Function]bool{}
+	for _, f := range out {
+		seen[f] = true
+	}
+	for i := 0; i < len(out); i++ {
+		for _, b := range out[i].Blocks {
+			for _, in := range b.Instrs {
+				mc, ok := in.(*ssa.MakeClosure)
+				if !ok {
+					continue
+				}
+				g, ok := mc.Fn.(*ssa.Function)
+				if !ok || seen[g] || g.Blocks == nil || !inlinedBoundWrapperOf(g, sp) {
+					continue
+				}
+				for _, a := range WithAnon(g) {
+					if !seen[a] && a.Blocks != nil {
+						seen[a] = true
+						out = append(out, a)
+					}
+				}
+			}
+		}
+	}
 	return out
+}
+
+// inlinedBoundWrapperOf: w is the bound-method wrapper of a method of package sp and no longer calls
+// that method (a variant inlined the method's body into it).
+func inlinedBoundWrapperOf(w *ssa.Function, sp *ssa.Package) bool {
+	if w.Synthetic == "" || strings.HasPrefix(w.Synthetic, "godcheck") || w.Object() == nil || len(w.FreeVars) == 0 {
+		return false
+	}
+	tf, ok := w.Object().(*types.Func)
+	if !ok {
+		return false
+	}
+	t := w.Prog.FuncValue(tf)
+	if t == nil || t.Pkg != sp {
+		return false
+	}
+	for _, b := range w.Blocks {
+		for _, in := range b.Instrs {
+			if c, ok := in.(ssa.CallInstruction); ok && c.Common().StaticCallee() == t {
+				return false
+			}
+		}
+	}
+	return true
 }
 
 // hidden: a helper inlined at every use is dead in the variant. Its closures stay
